@@ -544,6 +544,20 @@ func c06Loopback(c *Ctx) {
 					select {
 					case <-callDone:
 					case <-time.After(T + 20*time.Second):
+						// (a host that was frozen for 20 s makes this timer and the call's own deadline expire together: live time for the
+						// call to come back before it is called a hang - see liveAfter)
+						back := false
+						for i := 0; i < 20 && !back; i++ {
+							select {
+							case <-callDone:
+								back = true
+							case <-time.After(100 * time.Millisecond):
+							}
+						}
+						if back {
+							c.Res.Count("loopback:watchdog-fired-but-the-call-came-back (host frozen)", 1)
+							return
+						}
 						// a call that does not come back: nothing after it on this worker can be judged (and the batch would only meet its watchdog)
 						c.Res.Eval(1)
 						c.Res.Violate("C06:loopback:hang", fmt.Sprintf("%s (controller %s, protocol %q, bind %s) did not return within T+20s (T=%v)", op.Name, dv.state, dv.proto, cfg.Bind, T),
@@ -718,7 +732,7 @@ func c06Loopback(c *Ctx) {
 		select {
 		case <-allDone:
 			waiting = false
-		case <-time.After(time.Second):
+		case <-liveAfter(time.Second):
 			if hung.Load() {
 				time.Sleep(3 * time.Second) // the other workers finish their current case; the hung one never will
 				waiting = false
